@@ -124,7 +124,9 @@ func VerifCompatTable() []string {
 // of operations (same textual protocol as the harness uses for the public
 // ordered maps) and returns one observation per operation plus the final state.
 // Keys are constraint types 0..n, values are minLength constraints carrying a
-// number.
+// number.  X n / N n: Each / Map whose callback returns an error from its
+// (n+1)-th call ("stop|mapstop <calls> err|nil"); W p: Find with the calls of
+// its callback observed ("find k=v|none calls <calls>").
 func VerifConstraintsOps(ops []string) (out []string) {
 	defer func() {
 		if r := recover(); r != nil {
@@ -150,6 +152,16 @@ func VerifConstraintsOps(ops []string) (out []string) {
 		default:
 			return true
 		}
+	}
+	errStop := fmt.Errorf("verif: the callback stops the iteration")
+	errObs := func(err error) string {
+		switch {
+		case err == nil:
+			return " nil"
+		case err == errStop:
+			return " err"
+		}
+		return " OTHER-ERROR(" + err.Error() + ")"
 	}
 	for _, op := range ops {
 		f := strings.Fields(op)
@@ -213,6 +225,45 @@ func VerifConstraintsOps(ops []string) (out []string) {
 				tr = append(tr, fmt.Sprintf("%d=%d", int(k), val(c)))
 			})
 			out = append(out, "each "+strings.Join(tr, ","))
+		case "X":
+			// Each whose callback returns an error from its (n+1)-th call
+			n, calls := arg(1), 0
+			var tr []string
+			err := m.Each(func(k constraint.Type, c constraint.Constraint) error {
+				tr = append(tr, fmt.Sprintf("%d=%d", int(k), val(c)))
+				calls++
+				if calls == n+1 {
+					return errStop
+				}
+				return nil
+			})
+			out = append(out, "stop "+strings.Join(tr, ",")+errObs(err))
+		case "N":
+			// Map(+1) whose callback returns an error from its (n+1)-th call
+			n, calls := arg(1), 0
+			var tr []string
+			err := m.Map(func(k constraint.Type, c constraint.Constraint) (constraint.Constraint, error) {
+				tr = append(tr, fmt.Sprintf("%d=%d", int(k), val(c)))
+				calls++
+				if calls == n+1 {
+					return mk(val(c) + 1000), errStop // must not be stored
+				}
+				return mk(val(c) + 1), nil
+			})
+			out = append(out, "mapstop "+strings.Join(tr, ",")+errObs(err))
+		case "W":
+			// Find with the calls of its callback observed
+			var tr []string
+			p := arg(1)
+			it, ok := m.Find(func(k constraint.Type, c constraint.Constraint) bool {
+				tr = append(tr, fmt.Sprintf("%d=%d", int(k), val(c)))
+				return pred(p, k, c)
+			})
+			if ok {
+				out = append(out, fmt.Sprintf("find %d=%d calls %s", int(it.Key), val(it.Value), strings.Join(tr, ",")))
+			} else {
+				out = append(out, "find none calls "+strings.Join(tr, ","))
+			}
 		default:
 			out = append(out, "bad-op")
 		}
